@@ -58,7 +58,7 @@ ARG = {
     'NUM_HUGE': [b'99999999999999999999', b'4294967296'],
     'SEQSET': [b'1:*', b'1,2:3', b'*:1'],
     'SEQSET_BAD': [b'1:', b':1', b'1,,2', b'0'],
-    'STAR': [b'*', b'%'],
+    'STAR': [b'*', b'%', b'*%*%*%*%*%b', b'*a*a*a*a*a*a*a*a*a*a*a*a*b', b'%*%*%*%*%*%*%*%*%*%zz'],
     'FLAGLIST': [b'(\\Seen)', b'(\\Seen \\Deleted $kw)'],
     'FLAG_BAD': [b'(\\)', b'(\\Seen', b'(\\*)'],
     'MBX_INBOX': [b'INBOX', b'inbox', b'Sent'],
@@ -75,7 +75,9 @@ ARG = {
     'FETCHATT': [b'(UID FLAGS BODY.PEEK[HEADER.FIELDS (X)])', b'ALL', b'(ENVELOPE BODYSTRUCTURE)'],
     'SEARCHKEY': [b'ALL', b'SEEN', b'FROM x'],
     'SEARCH_NESTED': [b'OR NOT SEEN (OR DELETED NOT ALL)', b'NOT NOT SEEN', b'(((((ALL)))))',
-                      b'CHARSET X-UNKNOWN ALL'],
+                      b'CHARSET X-UNKNOWN ALL',
+                      b'OR ALL NOT ' * 450 + b'ALL',            # parses; deep for whatever walks it
+                      b'OR ' * 495 + b'ALL ' * 495 + b'ALL', b'NOT ' * 900 + b'ALL'],
     'HEADERKEY_8BIT': [b'HEADER "X-\xe9" "v"', b'HEADER {3+}\r\nX-\xe9 v'],
     'STOREITEM': [b'+FLAGS.SILENT', b'FLAGS'],
     'NOSPACE': [b''],      # glued to the previous token: handled by the joiner
@@ -99,7 +101,8 @@ ARG = {
     'MBX_OTHER': [b'Sent', b'Trash', b'"Sent"'],
     'W_FETCH': [b'FETCH', b'fetch'], 'W_STORE': [b'STORE'], 'W_COPY': [b'COPY'],
     'W_MOVE': [b'MOVE'], 'W_SEARCH': [b'SEARCH'], 'W_EXPUNGE': [b'EXPUNGE'],
-    'SASL_MECH': [b'PLAIN', b'LOGIN', b'plain'],
+    'SASL_MECH': [b'PLAIN', b'LOGIN', b'plain', b'PLAIN //7/AP8A/w==', b'PLAIN ====',
+                  b'LOGIN //4=', b'PLAIN {4+}\r\n\xff\xfe\x00\xff'],
     'ENABLE_ARG': [b'CONDSTORE', b'UTF8=ACCEPT'],
     'ZONE_ODD': [b'"01-Jan-2020 00:00:00 +010030"', b'"01-Jan-2020 00:00:00 -9959"',
                  b'" 1-Jan-2020 00:00:00 +2400"', b'"01-jan-2020 23:59:60 +0000"'],
@@ -220,9 +223,25 @@ HDRVAL = {
 }
 
 
+def _deep(inner: bytes, kind: str, depth: int) -> bytes:
+    """`inner` wrapped in `depth` levels of multipart / message/rfc822"""
+    body = inner
+    for d in range(depth):
+        if kind == 'deeprfc':
+            body = b'Content-Type: message/rfc822\r\n\r\n' + body
+        else:
+            b = b'B%d' % d
+            body = (b'Content-Type: multipart/mixed; boundary="' + b + b'"\r\n\r\n--' + b + b'\r\n'
+                    + body + b'\r\n--' + b + b'--\r\n')
+    return body
+
+
 def concretise_hdr(triple, rng) -> bytes:
     """<<header name, value class, frame>> -> message bytes"""
     name, val, frame = triple
+    if frame in ('deepmulti', 'deeprfc'):
+        hdr = name.encode() + b': ' + rng.choice(HDRVAL[val]) + b'\r\n'
+        return _deep(hdr + b'\r\nhello world\r\n', frame, rng.choice([60, 130, 260, 700]))
     hdr = name.encode() + b': ' + rng.choice(HDRVAL[val]) + b'\r\n'
     inner = hdr + b'X-Test: value\r\n\r\nhello world\r\n'
     if name.startswith('Content-') or name == 'MIME-Version':
@@ -454,7 +473,9 @@ def run_line(w: World, state: str, chunks: list, *, service: str = 'imap', name:
                     elif conts and got[-1].kind == 'cont' and word in (
                             b'IDLE', b'AUTHENTICATE'):
                         # IDLE / SASL exchange: end it
-                        for reply in ((b'DONE\r\n',) if word == b'IDLE' else (b'*\r\n',)):
+                        for reply in ((b'DONE\r\n',) if word == b'IDLE' else
+                                      ((b'*\r\n',), (b'//7/AP8A/w==\r\n',), (b'!!!\r\n',),
+                                       (b'AHVzZXIx\r\n', b'//4=\r\n'))[len(chunks[0]) % 4]):
                             tr.events.append({'e': 'in'})
                             w.send(name, reply)
                             tr.absorb(c)
